@@ -97,9 +97,17 @@ class BareSource:
     __anext__ = Source.__anext__
 
 
+class MailboxSource(Source):
+    """A source stream that is also a sized container of the events it has *ready* - none until somebody waits for one, so a
+    freshly opened stream is falsy.  Whether it is a stream is not a question of its truth value."""
+
+    def __len__(self):
+        return 0
+
+
 def build(spec, mode, salt, sub_kind, missing_resolver=False):
     from py_gql import build_schema
-    Source = BareSource if salt % 3 == 0 else globals()["Source"]   # noqa: N806
+    Source = BareSource if salt % 3 == 0 else MailboxSource if salt % 3 == 1 else globals()["Source"]   # noqa: N806
     eff = H.sdl_view(spec)
     schema = build_schema(GS.to_sdl(eff))
     wrap = SR.delivery_wrap(C8.modes_for(salt))
